@@ -582,3 +582,275 @@ theorem convert_ham_eq (m : IsingModel) (hm : ∀ e ∈ m.edges, e.1.length = 2)
   rw [h1, h2, h3, h4]
 
 end Qmc
+
+/-! ### offset, flags, carried fields -/
+
+namespace Qmc
+open GenericSampler
+
+theorem sum_map_const_range (n : Nat) (c : Rat) :
+    ((List.range n).map (fun _ => c)).sum = (n : Rat) * c := by
+  induction n with
+  | zero => simp
+  | succ k ih =>
+    rw [List.range_succ, List.map_append, List.sum_append, ih]
+    simp only [List.map_cons, List.map_nil, List.sum_cons, List.sum_nil]
+    push_cast; ring
+
+theorem sum_neg_abs (es : List (List Nat × Rat)) :
+    (es.map (fun e => -(absR e.2))).sum = -(es.map (fun e => absR e.2)).sum := by
+  induction es with
+  | nil => simp
+  | cons e t ih => simp only [List.map_cons, List.sum_cons, ih]; ring
+
+theorem convertList_offsets (m : IsingModel) :
+    ((convertList m).map (·.2.2)).sum =
+      -((m.edges.map (fun e => absR e.2)).sum +
+        (if m.hasField then (m.nvars : Rat) * absR m.longitudinal else 0)) := by
+  unfold convertList edgeEntries transEntries fieldEntries
+  simp only [List.map_append, List.sum_append, List.map_map, Function.comp_def]
+  rw [sum_neg_abs, sum_map_const_range]
+  split_ifs
+  · simp only [List.map_map, Function.comp_def]
+    rw [sum_map_const_range]; ring
+  · simp
+
+theorem any_range_true (n : Nat) : (List.range n).any (fun _ => true) = decide (0 < n) := by
+  cases n with
+  | zero => rfl
+  | succ k => simp [List.range_succ]
+
+theorem convertList_cluster (m : IsingModel) :
+    (convertList m).any (fun x => isValidClusterEdge x.1.isConstant x.1.vars.length)
+      = decide (0 < m.nvars) := by
+  unfold convertList edgeEntries transEntries fieldEntries
+  simp only [List.any_append, List.any_map, Function.comp_def]
+  have h1 : (m.edges.any fun e => isValidClusterEdge (edgeI e.1 e.2).isConstant (edgeI e.1 e.2).vars.length)
+      = false := by
+    simp [edgeI_not_constant, isValidClusterEdge]
+  have h2 : ((List.range m.nvars).any fun v =>
+      isValidClusterEdge (transI v m.transverse).isConstant (transI v m.transverse).vars.length)
+      = decide (0 < m.nvars) := by
+    rw [← any_range_true]
+    congr 1; funext v
+    rw [transI_constant]
+    simp [isValidClusterEdge, transI, newResult]
+  rw [h1, h2]
+  split_ifs with hf
+  · have h3 : ((List.range m.nvars).any fun v =>
+        isValidClusterEdge (fieldI v m.longitudinal).isConstant (fieldI v m.longitudinal).vars.length)
+        = false := by
+      simp [fieldI_not_constant _ _ ((hasField_iff m).mp hf), isValidClusterEdge]
+    simp [List.any_map, Function.comp_def, h3]
+  · simp
+
+theorem convertList_breaks (m : IsingModel) :
+    (convertList m).any (fun x => !x.2.1) = (m.hasField && decide (0 < m.nvars)) := by
+  unfold convertList edgeEntries transEntries fieldEntries
+  simp only [List.any_append, List.any_map, Function.comp_def]
+  split_ifs with hf
+  · simp only [List.any_map, Function.comp_def, Bool.not_true, Bool.not_false, hf, Bool.true_and]
+    rw [any_range_true]; simp
+  · simp [hf]
+
+/-- every field of the converted sampler, in closed form -/
+theorem convertResult_fields (g : IsingSampler) :
+    (convertResult g).bonds = convertBonds g.model ∧
+    (convertResult g).offset = (g.model.edges.map (fun e => absR e.2)).sum +
+        (if g.model.hasField then (g.model.nvars : Rat) * absR g.model.longitudinal else 0) ∧
+    (convertResult g).cutoff = g.cutoff ∧ (convertResult g).state = g.state ∧
+    (convertResult g).slots = growSlots g.slots g.cutoff ∧
+    (convertResult g).doLoopUpdates = false ∧ (convertResult g).doHeatbath = false ∧
+    (convertResult g).hasClusterEdges = decide (0 < g.model.nvars) ∧
+    (convertResult g).breaksIsingSymmetry = (g.model.hasField && decide (0 < g.model.nvars)) := by
+  obtain ⟨h1, h2, h3, h4, h5, h6, h7, h8, h9⟩ :=
+    addList_spec (convertList g.model) (newWithState g.model.nvars g.state false)
+  refine ⟨?_, ?_, rfl, ?_, rfl, ?_, ?_, ?_, ?_⟩
+  · show (addList _ _).bonds = _
+    rw [h1]; simp [newWithState, convertBonds]
+  · show (addList _ _).offset = _
+    rw [h2, convertList_offsets]; simp [newWithState]
+  · show (addList _ _).state = _
+    rw [h6]; rfl
+  · show (addList _ _).doLoopUpdates = _
+    rw [h8]; rfl
+  · show (addList _ _).doHeatbath = _
+    rw [h9]; rfl
+  · show (addList _ _).hasClusterEdges = _
+    rw [h3, convertList_cluster]; simp [newWithState]
+  · show (addList _ _).breaksIsingSymmetry = _
+    rw [h4, convertList_breaks]; simp [newWithState]
+
+/-! ### lock-step simulation -/
+
+/-- what the composition argument needs from the shared routines: the sweep pads the container to
+the cutoff before it starts (`mutate_subsection`'s resize), and the non-diagonal moves never
+change the operator count. -/
+structure Moves.Lawful (mv : Moves) : Prop where
+  diag_pad : ∀ H c beta (w : World),
+    mv.diag H c beta { w with slots := growSlots w.slots c } = mv.diag H c beta w
+  count_cluster : ∀ w, mv.count (mv.clusterSym w).slots = mv.count w.slots
+  count_free : ∀ w, mv.count (mv.freeFlip w).slots = mv.count w.slots
+
+/-- "`q` is the conversion of `g`", up to trailing empty slots below the cutoff -/
+def Sim (g : IsingSampler) (q : GenericSampler) : Prop :=
+  q.state = g.state ∧ q.cutoff = g.cutoff ∧
+  growSlots q.slots q.cutoff = growSlots g.slots g.cutoff ∧
+  q.bonds = convertBonds g.model ∧ q.doLoopUpdates = false ∧ q.doHeatbath = false ∧
+  q.shouldDoClusterUpdate = true
+
+/-- the Ising sampler has no field and none of the options the conversion drops -/
+def Plain (g : IsingSampler) : Prop :=
+  g.model.hasField = false ∧ g.runRvb = false ∧ g.heatbath = false ∧
+  (∀ e ∈ g.model.edges, e.1.length = 2)
+
+theorem growSlots_idem (s : Slots) (c : Nat) : growSlots (growSlots s c) c = growSlots s c := by
+  unfold growSlots
+  simp only [List.length_append, List.length_replicate]
+  have : c - (s.length + (c - s.length)) = 0 := by omega
+  rw [this]; simp
+
+theorem sim_convert (g : IsingSampler) (hf : g.model.hasField = false) (hn : 0 < g.model.nvars) :
+    Sim g (convertResult g) := by
+  obtain ⟨h1, _, h3, h4, h5, h6, h7, h8, h9⟩ := convertResult_fields g
+  refine ⟨h4, h3, ?_, h1, h6, h7, ?_⟩
+  · rw [h5, h3, growSlots_idem]
+  · simp [shouldDoClusterUpdate, h8, h9, hf, hn]
+
+theorem sim_step (mv : Moves) (hmv : mv.Lawful) (g : IsingSampler) (q : GenericSampler)
+    (hs : Sim g q) (hp : Plain g) (beta : Rat) (rng : List Nat) :
+    Sim (isingTimestep mv g beta rng).1 (genericTimestep mv q beta rng).1 ∧
+    Plain (isingTimestep mv g beta rng).1 ∧
+    (genericTimestep mv q beta rng).2 = (isingTimestep mv g beta rng).2 ∧
+    (genericTimestep mv q beta rng).1.state = (isingTimestep mv g beta rng).1.state ∧
+    (genericTimestep mv q beta rng).1.slots = (isingTimestep mv g beta rng).1.slots ∧
+    (genericTimestep mv q beta rng).1.cutoff = (isingTimestep mv g beta rng).1.cutoff := by
+  obtain ⟨s1, s2, s3, s4, s5, s6, s7⟩ := hs
+  obtain ⟨p1, p2, p3, p4⟩ := hp
+  have hham : q.ham = g.ham := by
+    unfold GenericSampler.ham IsingSampler.ham
+    rw [s4]; exact convert_ham_eq g.model p4
+  -- the two sweeps start from the same padded operator string
+  have hdiag : mv.diag q.ham q.cutoff beta { state := q.state, slots := q.slots, rng := rng }
+      = mv.diag g.ham g.cutoff beta { state := g.state, slots := g.slots, rng := rng } := by
+    have a := hmv.diag_pad q.ham q.cutoff beta { state := q.state, slots := q.slots, rng := rng }
+    have b := hmv.diag_pad g.ham g.cutoff beta { state := g.state, slots := g.slots, rng := rng }
+    rw [← a, ← b]
+    rw [s2] at s3
+    simp only [s3, s1, s2, hham]
+  unfold isingTimestep genericTimestep
+  simp only [p1, p2, p3, s5, s6, s7, Bool.false_eq_true, if_false, if_true, hdiag]
+  refine ⟨⟨?_, ?_, ?_, ?_, ?_, ?_, ?_⟩, ⟨?_, ?_, ?_, ?_⟩, ?_, ?_, ?_, ?_⟩
+  all_goals first
+    | rfl
+    | exact s4
+    | exact p1
+    | exact p4
+    | (simp only [s2, hmv.count_free, hmv.count_cluster]; done)
+    | (simpa [shouldDoClusterUpdate] using s7)
+
+/-- `k` time steps, threading the rng -/
+def isingSteps (mv : Moves) (beta : Rat) : Nat → IsingSampler × List Nat → IsingSampler × List Nat
+  | 0, x => x
+  | k + 1, x => isingSteps mv beta k (isingTimestep mv x.1 beta x.2)
+
+def genericSteps (mv : Moves) (beta : Rat) :
+    Nat → GenericSampler × List Nat → GenericSampler × List Nat
+  | 0, x => x
+  | k + 1, x => genericSteps mv beta k (genericTimestep mv x.1 beta x.2)
+
+theorem sim_steps (mv : Moves) (hmv : mv.Lawful) (beta : Rat) (k : Nat) (g : IsingSampler)
+    (q : GenericSampler) (rng : List Nat) (hs : Sim g q) (hp : Plain g) :
+    Sim (isingSteps mv beta k (g, rng)).1 (genericSteps mv beta k (q, rng)).1 ∧
+    (genericSteps mv beta k (q, rng)).2 = (isingSteps mv beta k (g, rng)).2 := by
+  induction k generalizing g q rng with
+  | zero => exact ⟨hs, rfl⟩
+  | succ k ih =>
+    obtain ⟨h1, h2, h3, _⟩ := sim_step mv hmv g q hs hp beta rng
+    simp only [isingSteps, genericSteps]
+    have := ih (isingTimestep mv g beta rng).1 (genericTimestep mv q beta rng).1
+      (isingTimestep mv g beta rng).2 h1 h2
+    rw [← h3] at this
+    have hi : isingTimestep mv g beta rng
+        = ((isingTimestep mv g beta rng).1, (genericTimestep mv q beta rng).2) := by rw [h3]
+    have hq : genericTimestep mv q beta rng
+        = ((genericTimestep mv q beta rng).1, (genericTimestep mv q beta rng).2) := rfl
+    rw [hi, hq]; exact this
+
+end Qmc
+
+/-! ### diagonal sweeps agree for every field -/
+
+namespace Qmc
+open GenericSampler
+
+/-- conversion relation without the cluster gate (holds for every `h`) -/
+def SimD (g : IsingSampler) (q : GenericSampler) : Prop :=
+  q.state = g.state ∧ q.cutoff = g.cutoff ∧
+  growSlots q.slots q.cutoff = growSlots g.slots g.cutoff ∧
+  q.bonds = convertBonds g.model ∧ q.doHeatbath = false
+
+theorem simD_convert (g : IsingSampler) : SimD g (convertResult g) := by
+  obtain ⟨h1, _, h3, h4, h5, _, h7, _, _⟩ := convertResult_fields g
+  refine ⟨h4, h3, ?_, h1, h7⟩
+  rw [h5, h3, growSlots_idem]
+
+theorem simD_step (mv : Moves) (hmv : mv.Lawful) (g : IsingSampler) (q : GenericSampler)
+    (hs : SimD g q) (hb : g.heatbath = false) (he : ∀ e ∈ g.model.edges, e.1.length = 2)
+    (beta : Rat) (rng : List Nat) :
+    SimD (isingDiagStep mv g beta rng).1 (genericDiagStep mv q beta rng).1 ∧
+    (isingDiagStep mv g beta rng).1.heatbath = false ∧
+    (isingDiagStep mv g beta rng).1.model = g.model ∧
+    (genericDiagStep mv q beta rng).2 = (isingDiagStep mv g beta rng).2 ∧
+    (genericDiagStep mv q beta rng).1.state = (isingDiagStep mv g beta rng).1.state ∧
+    (genericDiagStep mv q beta rng).1.slots = (isingDiagStep mv g beta rng).1.slots ∧
+    (genericDiagStep mv q beta rng).1.cutoff = (isingDiagStep mv g beta rng).1.cutoff := by
+  obtain ⟨s1, s2, s3, s4, s6⟩ := hs
+  have hham : q.ham = g.ham := by
+    unfold GenericSampler.ham IsingSampler.ham
+    rw [s4]; exact convert_ham_eq g.model he
+  have hdiag : mv.diag q.ham q.cutoff beta { state := q.state, slots := q.slots, rng := rng }
+      = mv.diag g.ham g.cutoff beta { state := g.state, slots := g.slots, rng := rng } := by
+    have a := hmv.diag_pad q.ham q.cutoff beta { state := q.state, slots := q.slots, rng := rng }
+    have b := hmv.diag_pad g.ham g.cutoff beta { state := g.state, slots := g.slots, rng := rng }
+    rw [← a, ← b]
+    rw [s2] at s3
+    simp only [s3, s1, s2, hham]
+  unfold isingDiagStep genericDiagStep
+  simp only [hb, s6, Bool.false_eq_true, if_false, hdiag]
+  refine ⟨⟨?_, ?_, ?_, ?_, ?_⟩, ?_, ?_, ?_, ?_, ?_, ?_⟩
+  all_goals first
+    | rfl
+    | exact s4
+    | (simp only [s2])
+
+def isingDiagSteps (mv : Moves) (beta : Rat) :
+    Nat → IsingSampler × List Nat → IsingSampler × List Nat
+  | 0, x => x
+  | k + 1, x => isingDiagSteps mv beta k (isingDiagStep mv x.1 beta x.2)
+
+def genericDiagSteps (mv : Moves) (beta : Rat) :
+    Nat → GenericSampler × List Nat → GenericSampler × List Nat
+  | 0, x => x
+  | k + 1, x => genericDiagSteps mv beta k (genericDiagStep mv x.1 beta x.2)
+
+theorem simD_steps (mv : Moves) (hmv : mv.Lawful) (beta : Rat) (k : Nat) (g : IsingSampler)
+    (q : GenericSampler) (rng : List Nat) (hs : SimD g q) (hb : g.heatbath = false)
+    (he : ∀ e ∈ g.model.edges, e.1.length = 2) :
+    SimD (isingDiagSteps mv beta k (g, rng)).1 (genericDiagSteps mv beta k (q, rng)).1 ∧
+    (genericDiagSteps mv beta k (q, rng)).2 = (isingDiagSteps mv beta k (g, rng)).2 := by
+  induction k generalizing g q rng with
+  | zero => exact ⟨hs, rfl⟩
+  | succ k ih =>
+    obtain ⟨h1, h2, hm, h3, _⟩ := simD_step mv hmv g q hs hb he beta rng
+    simp only [isingDiagSteps, genericDiagSteps]
+    have := ih (isingDiagStep mv g beta rng).1 (genericDiagStep mv q beta rng).1
+      (isingDiagStep mv g beta rng).2 h1 h2 (by rw [hm]; exact he)
+    rw [← h3] at this
+    have hi : isingDiagStep mv g beta rng
+        = ((isingDiagStep mv g beta rng).1, (genericDiagStep mv q beta rng).2) := by rw [h3]
+    have hq : genericDiagStep mv q beta rng
+        = ((genericDiagStep mv q beta rng).1, (genericDiagStep mv q beta rng).2) := rfl
+    rw [hi, hq]; exact this
+
+end Qmc
